@@ -319,6 +319,27 @@ def typed_facts(repo_root: Path, only: Optional[List[str]] = None) -> List[dict]
     key = str(repo_root) + "|" + ",".join(sorted(k for g in groups for k in g))
     if key in _CACHE:
         return _CACHE[key]["results"]
+    # optional on-disk cache keyed by the content of every module the kernels live in (type inference sees nothing else of the repository);
+    # purely an accelerator for the self-test corpus: absent or unreadable entries are recomputed
+    import hashlib
+    h = hashlib.sha256()
+    for p_ in sorted((Path(repo_root) / "hdc" / "algo").rglob("*.py")):
+        if p_.name in ("accessors.py", "dekad.py"):
+            continue
+        h.update(p_.name.encode())
+        h.update(p_.read_bytes())
+    h.update(Path(__file__).read_bytes())
+    h.update(",".join(sorted(k for g in groups for k in g)).encode())
+    cdir = Path(os.environ.get("VERIF_TIR_CACHE", Path(tempfile.gettempdir()) / "hdc_tir_cache"))
+    cfile = cdir / (h.hexdigest()[:32] + ".json")
+    if os.environ.get("VERIF_TIR_CACHE") != "off" and cfile.exists():
+        try:
+            results = json.loads(cfile.read_text())["results"]
+            _apply_renames(repo_root, results)
+            _CACHE[key] = dict(results=results)
+            return results
+        except Exception:  # noqa: BLE001
+            pass
     tmpd = Path(tempfile.mkdtemp(prefix="hdc_tir_"))
     procs = []
     env = dict(os.environ, NUMBA_DISABLE_JIT="0", NUMBA_CACHE_DIR=str(tmpd / "nbcache"), PYTHONDONTWRITEBYTECODE="1")
@@ -337,6 +358,14 @@ def typed_facts(repo_root: Path, only: Optional[List[str]] = None) -> List[dict]
     finally:
         import shutil
         shutil.rmtree(tmpd, ignore_errors=True)
+    if os.environ.get("VERIF_TIR_CACHE") != "off":
+        try:
+            cdir.mkdir(parents=True, exist_ok=True)
+            tmpf = cdir / (cfile.name + f".{os.getpid()}.tmp")
+            tmpf.write_text(json.dumps(dict(results=results)))
+            os.replace(tmpf, cfile)
+        except Exception:  # noqa: BLE001
+            pass
     _apply_renames(repo_root, results)
     _CACHE[key] = dict(results=results)
     return results
